@@ -21,6 +21,14 @@ normalisation, any environment, any number of calls, threads, steps, registry ro
 * CPython's import machinery: the per-module import lock, half-initialised modules (import still running) seen by a
   second thread during a concurrent first import of a country module, `sys.modules` manipulation by
   shim modules; here `load` is an atomic total function.
+  **This limitation is not academic**: `tools/search/c13.py` exhibits a schedule of the real code
+  in which `util.get_cc_module('gb', 'vat')` returns `None` for an existing module (a second thread
+  is between "module published in `sys.modules`" and "module bound as attribute of its package"
+  inside importlib, and `get_cc_module` uses `getattr(package, name, None)`), i.e. the real `load`
+  is *not* a function of its argument under concurrency; `iban/eu.vat/vatin._get_cc_module` then
+  store that `None` for the life of the process.  The theorems below are therefore about the
+  caching logic given an atomic, deterministic `load`; `fault_is_cached` shows what the same
+  caching logic does with a transient wrong answer of `load`: it makes it permanent.
 * C-level data races and the atomicity of `dict` operations: the model *assumes* that `k in d`,
   `d[k] = v` and `d[k]` are atomic (true under the GIL; the free-threaded build uses per-object
   locks), and that `compute` touches no shared state.
@@ -94,6 +102,13 @@ theorem sequential_pure {Out : Type} {key : RawKey → Key} {load : RawKey → V
 theorem run_inv {Out : Type} {key : RawKey → Key} {load : RawKey → Val} (hf : Factors key load)
     (p : Prog RawKey Val Out) (c : Cache Key Val) (hc : CacheInv key load c) :
     CacheInv key load (run key load p c).2 := (run_spec hf p c hc).2
+
+/-- A transient wrong answer of the computation becomes permanent: once a wrong value `w` has been
+stored under the key of `raw`, every later `get raw` returns `w` and leaves the cache as it is
+(what happens in the real code when `get_cc_module` spuriously returns `None`). -/
+theorem fault_is_cached (key : RawKey → Key) (load : RawKey → Val) (c : Cache Key Val) (raw : RawKey) (w : Val) :
+    Spec.State.get key load (store c (key raw) w) raw = (w, store c (key raw) w) := by
+  simp [Spec.State.get, store, find?]
 
 /-- order independence, as a corollary: a call's output does not depend on what ran before it -/
 theorem order_independent {Out : Type} {key : RawKey → Key} {load : RawKey → Val}
@@ -606,6 +621,7 @@ end Props.C13
 #print axioms Props.C13.sequential_pure
 #print axioms Props.C13.sequential_pure_from_reachable
 #print axioms Props.C13.order_independent
+#print axioms Props.C13.fault_is_cached
 #print axioms Props.C13.real_caches_factor
 #print axioms Props.C13.sequential_fails_without_factoring
 #print axioms Props.C13.reachable_inv
